@@ -33,6 +33,11 @@ package dns
 //@   assert at "c <- &Envelope{in.Answer, nil}@1" first: q.Id == in.Id && in.Rcode == 0 && callres("isSOAFirst") && len(in.Answer) == 1
 //@   assert at "c <- &Envelope{in.Answer, nil}@2" last: q.Id == in.Id && callres("isSOALast") && !first
 //@   assert at "c <- &Envelope{in.Answer, nil}@3" more: q.Id == in.Id && !callres("isSOALast") && !first
+// no silent end: between reading a message and returning, exactly one envelope is handed to the consumer, and when
+// the read failed it carries that error
+//@   ghost s0 at "in, err := t.ReadMsg()" sends()
+//@   exit told: sends() == s0 + 1
+//@   assert at "c <- &Envelope{nil, err}" readerr: err != nil && err == callres("ReadMsg", 1)
 
 // IXFR reader: same admission rules on every message; the transfer ends with the single-SOA "up to date"
 // answer, or when the server's serial has been seen twice in AXFR style or three times in IXFR style
@@ -43,6 +48,9 @@ package dns
 //@   assert at "t.tsigTimersOnly = true" behind: n == 0 ==> qser < serial
 //@   assert at "c <- &Envelope{in.Answer, nil}@2" done: q.Id == in.Id && in.Rcode == 0 && ((axfr && n == 2) || n == 3)
 //@   assert at "c <- &Envelope{in.Answer, nil}@3" more: q.Id == in.Id && in.Rcode == 0 && n < 3 && !(axfr && n == 2)
+//@   ghost s0 at "in, err := t.ReadMsg()" sends()
+//@   exit told: sends() == s0 + 1
+//@   assert at "c <- &Envelope{nil, err}" readerr: err != nil && err == callres("ReadMsg", 1)
 //@   loop * invariant 0 <= n && n < 3 && !(axfr && n == 2)
 
 // outgoing side: every envelope becomes one reply to the query (SetReply, AA set) that carries exactly the
